@@ -261,6 +261,23 @@ def run(ctx):
         b = bytes(rng.below(256) for _ in range(n))
         if rng.chance(1, 2) and n >= 12: b = pw.RIFF + b[4:8] + pw.WAVE + b[12:]
         hs.append(hist(n, b))
+    # decode into a structure that was used before (stale contents, a previous decode of another kind of header, an
+    # initialised structure): the result must be a function of the supplied bytes only
+    nused = 0
+    fresh = [h for h in hs[ncorpus:] if h and h[0].startswith('dec')]
+    kinds_hdr = c13.valid_headers(rng)
+    for _ in range(300 if q else 6000):
+        h = rng.choice(fresh)
+        k = rng.below(4)
+        if k == 0:
+            pre = [c13.rand_prior(rng)]
+        elif k == 1:
+            hdr = rng.choice(kinds_hdr); pre = [f'dec {len(hdr)} {pw.hx(hdr)}']
+        elif k == 2:
+            pre = [f'init 48000 {rng.range(1, 3)} {rng.below(3)}', f'frames {rng.below(1000)}']
+        else:
+            hdr = rng.choice(kinds_hdr); pre = [c13.rand_prior(rng), f'dec {len(hdr)} {pw.hx(hdr)}']
+        hs.append(pre + h); nused += 1
     for nch in (0,):                                              # helpers on initialised-but-degenerate structures
         hs += [[f'init 44100 {nch} {f}'] + HELPERS + ['frames 5'] + HELPERS for f in (0, 1, 2)]
     agreed = pw.judged(ctx, 'wav', exe, hs, judge, label='wav(C14)')
@@ -279,6 +296,7 @@ def run(ctx):
         ctx.cov['line_coverage_of_modelled_code'] = pw.uncovered_lines(ctx, os.path.join(vlib.VERIF, 'harness/h_wav.c'),
             [R + '/librfn/wavheader.c', R + '/librfn/pack.c', R + '/librfn/string.c', R + '/librfn/util.c', R + '/librfn/posix/time_posix.c'], hs)
     ctx.cov['decode_results'] = kinds
+    ctx.cov['decodes_into_a_used_structure'] = nused
     ctx.cov['histories'] = {'corpus': ncorpus, 'truncation_points': ntrunc, 'field_mutated': nmut, 'adversarial_size_fields': nadv, 'near_miss_tags': len(near), 'small_16bit_fields_singly_and_in_pairs': len(small), 'dictionary_substitutions': len(dic), 'random_bytes': nrand}
     ctx.sample({'history': [x[:150] for x in hs[ncorpus + 50]]})
     ctx.sample({'history': [x[:150] for x in hs[-20]]})
